@@ -22,7 +22,8 @@ EXPLANATION = (
     "linearize()(zeros(), memory=memory); TableLookup interpolation weights sum to one over int(idx)/ceil(idx) cyclic "
     "indices with step = len/(cycles*2*pi)*freq. resample: no StopIteration escape (ends with its input), deque of "
     "order+1 zeros, Lagrange over enumerate(data) at idx, idx advanced by old/new, one new sample per unit of idx; "
-    "its two arms are siblings. Not decided: floating-point drift, the numeric value of int()/rint() roundings.")
+    "its two arms are siblings. Not decided: floating-point drift, the numeric value of int()/rint() roundings."
+    " Also: Each modulo_counter leaf must treat every argument according to the kind its guards select (iterated iff iterable); loops over numbers only are endless; the endless-duration guards of the generators are evaluated for None, +-inf and finite values; documented defaults (C19.defaults). ")
 
 UNDECIDED = ["closed-form values in floating point", "rounding of fractional durations beyond the int(dur + .5) shape"]
 
